@@ -53,6 +53,33 @@ def sites(F, prefix="src/builders/"):
     return out
 
 
+def presence_only(F, base_key):
+    """every closure handed to Iterator::filter in the function calls nothing but Option::is_some / is_none (a selection by
+    presence, e.g. `filter(|(_, (_, hash))| hash.is_some())`)"""
+    ids = F.by_key(base_key)
+    if len(ids) != 1:
+        return False
+    import fieldflow as ff
+    subs = [ids[0]] + [c for c in F.fns if c.startswith(ids[0] + "::{closure")]
+    found = False
+    for sub in subs:
+        org = None
+        fn = F.fns[sub]
+        for c in F.calls(sub):
+            if not (c.to or "").endswith("Iterator::filter"):
+                continue
+            org = org or ff.Origins(F, sub)
+            cls = [x[8:] for a in fn["bbs"][c.bb]["t"][3] for x in org.of_operand(a) if x.startswith("closure:")]
+            if not cls:
+                return False
+            for cl in cls:
+                found = True
+                tos = [k.to or "" for k in F.calls(cl)] if cl in F.fns else ["?"]
+                if not all(t.endswith(("Option::<T>::is_some", "Option::<T>::is_none")) for t in tos):
+                    return False
+    return found
+
+
 def check(rep, F, prop=None):
     tab = common.load_table("partial_iter.json")["entries"]
     allowed = {(e["fn"], e["adaptor"]): e for e in tab}
@@ -65,6 +92,9 @@ def check(rep, F, prop=None):
         e = allowed.get((fn, ad))
         if e and len(locs) <= e["count"]:
             rep.allow("PARTIAL-iter", len(locs))
+            continue
+        if ad == "filter" and presence_only(F, fn):
+            rep.lost("%s applies a new `filter` whose predicate only tests the presence of an Option component (is_some / is_none): whether that drops more than the code it replaces cannot be decided here - add an audit line to tables/partial_iter.json" % fn)
             continue
         rep.violation("PARTIAL-iter", "%s|%s" % (fn, ad), "%s applies `%s` to an iterator (%d site(s), %d audited): only part of the collection is visited - elements (signers, witnesses, reference scripts, amounts) of the rest are silently ignored" % (fn, ad, len(locs), e["count"] if e else 0), {"function": fn, "adaptor": ad})
     rep.floor("element-dropping adaptor sites inventoried in collector code (closure of the size / fee / witness entry points)", 12, n)
